@@ -14,6 +14,8 @@ type SStep struct {
 	Step
 	S     int        `json:"s"`   // session the call names (Create: the id it returned); -1 otherwise
 	To    int        `json:"to"`  // Create: timeout in ticks
+	Lag   int        `json:"lag"`  // LeaderChange: by how many entries the elected node's DB lags its log
+	Fill  int        `json:"fill"` // Fill: number of plain records "a-NNN" the shard is populated with
 	Out   string     `json:"out"` // outcome of the call
 	Now   int        `json:"now"`
 	Armed []ArmedRec `json:"armed"`
@@ -95,8 +97,15 @@ func ExecSess(e *LeaderEngine, st *SStep, probeKeys []string) (problems []string
 		if st.Err != "" {
 			st.Out = st.Err
 		}
+	case "Fill":
+		if err := e.SessFill(st.Fill); err != nil {
+			st.Out, st.Err = "ERROR: "+cleanErr(err), "ERROR: "+cleanErr(err)
+		}
 	case "LeaderChange":
-		if err := e.SessLeaderChange(); err != nil {
+		if err := e.SessLeaderChange(st.Lag); err != nil {
+			if strings.HasPrefix(err.Error(), "harness:") {
+				return []string{cleanErr(err)}
+			}
 			st.Out, st.Err = "ERROR: "+cleanErr(err), "ERROR: "+cleanErr(err)
 			return problems
 		}
